@@ -22,10 +22,21 @@ Theorem C01_source_tie_g :
 Proof. exact C01_tie_g_ok. Qed.
 Print Assumptions C01_source_tie_g.
 
+(* IPAddress.format(dialect): d6_of reads the model's dialect argument (None or a dialect record) as the generated code sees it --
+   None, or the class as the pair (word_fmt, compact) of GenOk_Src_C01_text.dcls --; an object without word_fmt gives TypeError.
+   Hypothesis: the family is 4 or 6 (the model has no third strategy module, the generated code says Unsupported there). *)
+Theorem C01_source_tie_g_format :
+  (forall be ver w v d, ver = 4 \/ ver = 6 -> src_IPAddress_format be ver w v (d6_of d) = int_to_str be ver v d) /\
+  (forall be ver w v, src_IPAddress_format be ver w v D6Other = Raise TypeError).
+Proof. exact C01_tie_g_format_ok. Qed.
+Print Assumptions C01_source_tie_g_format.
+
 Example C01_src_g_nonvacuous :
   src_IPAddress_repr Fallback 4 32 3221225985 = Ok "IPAddress('192.0.2.1')"%string /\
   src_IPNetwork_repr Fallback 4 32 3221225984 24 = Ok "IPNetwork('192.0.2.0/24')"%string /\
   src_IPRange_str Fallback 4 32 3221225985 3221225990 = Ok "192.0.2.1-192.0.2.6"%string /\
   src_IPRange_repr Fallback 4 32 3221225985 3221225990 = Ok "IPRange('192.0.2.1', '192.0.2.6')"%string /\
-  src_IPAddress_oct 4 32 8 = "010"%string.
+  src_IPAddress_oct 4 32 8 = "010"%string /\
+  src_IPAddress_format Fallback 6 128 1 (D6Class ("%.4x"%string, false)) = Ok "0000:0000:0000:0000:0000:0000:0000:0001"%string /\
+  src_IPAddress_format Fallback 6 128 1 D6None = Ok "::1"%string.
 Proof. repeat split; vm_compute; reflexivity. Qed.
